@@ -7,6 +7,7 @@ import (
 
 	"lunar/engine/streams"
 	"lunar/engine/streams/validation"
+	engineutils "lunar/engine/utils"
 
 	"verifsim/kernel"
 )
@@ -243,6 +244,16 @@ func runC05(s *kernel.Sim) {
 		}
 		files["flows/f1.yaml"] = gd.YAML()
 	}
+	if tp.Chance(1, 4) {
+		// a flow whose processor rewrites the body and the headers of the request
+		files["flows/fs.yaml"] = flowDef{
+			Name: "fs", URL: flowURL,
+			Procs: []procDef{{Key: "san", Type: "DataSanitation"}},
+			Req:   []connDef{{FromStream: "start", ToProc: "san"}, {FromProc: "san", ToStream: "end"}},
+			Resp:  []connDef{{FromStream: "start", ToStream: "end"}},
+		}.YAML()
+		mutations = append(mutations, "data-sanitation-flow")
+	}
 	quotaW := []int{5, 2, 1, 1, 1, 2}
 	if plausible {
 		quotaW = []int{3, 1, 0, 0, 0, 1}
@@ -352,7 +363,7 @@ func runC05(s *kernel.Sim) {
 		}
 	}
 	env := &engineEnv{Dir: dir, Stream: st, Shared: newShared()}
-	bodies := []string{"", "{not json", `{"a":1}`, strings.Repeat("x", 70000)}
+	bodies := []string{"", "{not json", `{"a":1}`, strings.Repeat("x", 70000), `{"email":"john.doe@example.com","card":"4111 1111 1111 1111"}`}
 	paths := []string{"/c", "/c", "/c/extra", "", "//", "/c?x=1", "/c/%zz", "/c/100%", "/c\x7f", "/c?x=1&y=%zz"}
 	for ti := 0; ti < 10 && !s.Failed(); ti++ {
 		hdr := map[string]string{}
@@ -370,6 +381,17 @@ func runC05(s *kernel.Sim) {
 		id := fmt.Sprintf("t%d", ti)
 		m := reqMsg(id, []string{"GET", "POST"}[tp.Choose(2)], "a.com", path, hdr)
 		m.RawBody = []byte(body)
+		// the header block as HAProxy hands it over, decoded by the gateway's own
+		// parser; one block in six is not parseable as MIME headers
+		block := ""
+		for _, k := range sortedKeys(hdr) {
+			block += k + ": " + hdr[k] + "\r\n"
+		}
+		if tp.Chance(1, 6) {
+			block = []string{"this line has no colon\r\n" + block, ": empty-name\r\n" + block, "x-a: 1\r\n bad continuation \x00\r\nnocolon"}[tp.Choose(3)]
+			mutations = append(mutations, "malformed-header-block")
+		}
+		m.Headers = engineutils.ParseHeaders(&block)
 		s.Rule("R3")
 		count = 0
 		var out reqOutcome
